@@ -209,6 +209,11 @@ def _output_sarif(violations: list) -> None:
 
     formatter = SarifFormatter()
     sarif_doc = formatter.format(violations)
+    # Same surrogate handling as the text and JSON renderings
+    for result in sarif_doc["runs"][0]["results"]:
+        result["message"]["text"] = _sanitize_string(result["message"]["text"])
+        artifact = result["locations"][0]["physicalLocation"]["artifactLocation"]
+        artifact["uri"] = _sanitize_string(str(artifact["uri"]))
     click.echo(json.dumps(sarif_doc, indent=2))
 
 
